@@ -200,6 +200,67 @@ def judge_wire(pid, V, sc, lines, stats, rpc_faults_as_c13=False):
                         % (sc["scn"], sql, len(l["cluster"]), " (error: %s)" % l["clusterErr"] if "clusterErr" in l else "", len(l["embedded"])))
 
 
+def view_mismatches(sc, lines):
+    """Per table: the partitions' cells together against the standalone database's."""
+    from store_checks import rows_to_cells, diff_cells
+    views = {}
+    for l in lines:
+        if l["a"] == "WireView":
+            views.setdefault(l["t"], {})[l["node"]] = rows_to_cells(l["rows"])
+    out = []
+    for tn, nodes in views.items():
+        total = {}
+        for node, cells in nodes.items():
+            if node != "standalone":
+                for k, c in cells.items():
+                    total[k] = total.get(k, 0) + c
+        d = diff_cells(total, nodes.get("standalone", {}))
+        if d:
+            out.append((tn, d))
+    return out, bool(views)
+
+
+def rpc_follow_part(pid, V, rng, work, quick, stats_out):
+    """C12 over the real rpc follow stream: followers whose stream is dropped and
+    re-established (with the offset of the last entry received) while points arrive."""
+    zb = common.build(("zvwire",))["zvwire"]
+    scs = []
+    for i in range(4 if quick else 24):
+        sc = wire_scenario("drop%d" % i, rng, rng.choice([2, 3]), rng.randint(0, 3), 2)
+        n = len(sc["points"])
+        sc["drops"] = sorted([rng.randint(1, n - 1), rng.randrange(sc["partitions"])] for _ in range(rng.randint(1, 4)))
+        scs.append(sc)
+    tr = common.run_shards(zb, scs, os.path.join(work, "runrpc"), nproc=min(8, len(scs)), timeout=1800)
+    suspects = {}
+    drops = 0
+    for sc in scs:
+        lines = tr.get(sc["scn"], [])
+        if any(l["a"] in ("HarnessError", "ProcessCrash") for l in lines):
+            stats_out["rpc_harness_errors"] = stats_out.get("rpc_harness_errors", 0) + 1
+            continue
+        drops += sum(l["drops"] for l in lines if l["a"] == "WireDrops")
+        mm, seen = view_mismatches(sc, lines)
+        stats_out["rpc_follow_scenarios"] = stats_out.get("rpc_follow_scenarios", 0) + (1 if seen else 0)
+        if mm:
+            suspects[sc["scn"]] = (sc, mm)
+    stats_out["rpc_stream_drops"] = drops
+    if suspects:
+        again = [dict(sc, scn="%s~%d" % (n, k)) for n, (sc, _) in suspects.items() for k in (1, 2)]
+        tr2 = common.run_shards(zb, again, os.path.join(work, "runrpc2"), nproc=min(8, len(again)), timeout=1800)
+        for n, (sc, mm) in suspects.items():
+            shown = sum(1 for k in (1, 2) if view_mismatches(sc, tr2.get("%s~%d" % (n, k), []))[0])
+            tn, d = mm[0]
+            k0 = sorted(d, key=repr)[0]
+            text = ("%s: after the follow streams of %s were dropped and re-established (over rpc), the partitions of table %s together differ from "
+                    "the standalone database on %d cell(s), e.g. %s partitions/standalone %s" % (n, [x[1] for x in sc["drops"]], tn, len(d), list(k0), d[k0]))
+            if shown:
+                rp = common.save_replay(pid, n + "-rpc-follow", {"wire": sc, "diff": [[list(x), d[x]] for x in sorted(d, key=repr)][:10]})
+                V.violation(rp, text)
+            else:
+                stats_out["rpc_unreproduced"] = stats_out.get("rpc_unreproduced", 0) + 1
+                V.notes.append(text + " - did not show again in 2 re-executions: not counted")
+
+
 def check_C20(args):
     t0 = time.time()
     pid = "C20"
